@@ -111,7 +111,7 @@ def gen_deps(r: Any, kn: dict) -> dict:
                     cache = False
                 subs.append([c["id"], cache])
         depth[nid] = 1 + max([depth[s] for s, _ in subs], default=0)
-        node = {"id": nid, "style": style, "deps": subs, "ctx": r.random() < 0.6,
+        node = {"id": nid, "style": style, "deps": subs, "ctx": r.random() < 0.6, "ctxbound": style in ("gen", "agen", "cm", "acm") and r.random() < 0.3,
                 "us": [duration(r, {"zero": 3, "tiny": 3, "short": 2}), duration(r, {"zero": 3, "tiny": 3, "short": 2})]}
         nodes.append(node)
     # roots: nodes nobody depends on, plus maybe others
